@@ -497,6 +497,7 @@ class Driver:
     def pack_stop(self, t):
         from persistent.TimeStamp import TimeStamp
         import time as _t
+        t = max(t, -2208988000.0)       # TimeStamp starts in 1900
         return TimeStamp(*_t.gmtime(t)[:5] + (t % 60,)).raw()
 
     def pack_time(self, op):
@@ -558,7 +559,7 @@ class Driver:
         from ZODB.serialize import referencesf
         st = self.st
         m = self.model
-        t = self.pack_time(op)
+        t = max(self.pack_time(op), -2208988000.0)
         stop = self.pack_stop(t)
         gc = op.get('gc')
         eff_gc = gc if gc is not None else self.opts.get('pack_gc', True)
